@@ -16,6 +16,10 @@ pub struct Case {
     pub to: [f64; 6],
     pub rng_seed: u64,
     pub draws: u16,
+    /// history of the constraint object: built with these limits first, then moved to (from, to) by update_range.
+    /// Per joint the earlier pair may share one limit, both or none with the final one.
+    #[serde(default)]
+    pub earlier: Option<([f64; 6], [f64; 6])>,
 }
 
 /// class of one (from,to) pair
@@ -62,7 +66,7 @@ impl Property for C18 {
     }
     fn rule(&self) -> String {
         "(from,to) per joint in [-2pi,2pi]: ordinary; wrapping with both positive / both negative / straddling zero / to==0; from-to > 2pi; from==to; 100..300 draws per constraint set with the library RNG seeded per set through the verif_hooks feature. \
-         Width-less arcs (from>to with from==to mod 2pi) are excluded and counted. Non-trivial: sets with at least one wrapping joint whose 'to' != 0 (the branch the repository's tests never reach)."
+         One third of the sets reach their limits through a history (new with other limits, then update_range; per joint the earlier pair shares the lower limit, the upper limit, both or none). Width-less arcs (from>to with from==to mod 2pi) are excluded and counted. Non-trivial: sets with at least one wrapping joint whose 'to' != 0 (the branch the repository's tests never reach)."
             .into()
     }
     fn assumptions(&self) -> Vec<String> {
@@ -78,15 +82,25 @@ impl Property for C18 {
         crate::selftest::arc_selftest()
     }
     fn strategy(&self, _tier: Tier) -> BoxedStrategy<Case> {
-        (prop::array::uniform6(pair_strategy()), any::<u64>(), 100u16..300)
-            .prop_map(|(p, rng_seed, draws)| {
+        (prop::array::uniform6(pair_strategy()), any::<u64>(), 100u16..300, prop_oneof![2 => Just(None), 1 => (prop::array::uniform6(pair_strategy()), prop::array::uniform6(0u8..4)).prop_map(Some)])
+            .prop_map(|(p, rng_seed, draws, hist)| {
                 let mut from = [0.0; 6];
                 let mut to = [0.0; 6];
                 for k in 0..6 {
                     from[k] = p[k].0;
                     to[k] = p[k].1;
                 }
-                Case { from, to, rng_seed, draws }
+                let earlier = hist.map(|(q, share)| {
+                    let mut f0 = [0.0; 6];
+                    let mut t0 = [0.0; 6];
+                    for k in 0..6 {
+                        // 0: both limits differ, 1: same lower limit, 2: same upper limit, 3: identical pair
+                        f0[k] = if share[k] == 1 || share[k] == 3 { from[k] } else { q[k].0 };
+                        t0[k] = if share[k] == 2 || share[k] == 3 { to[k] } else { q[k].1 };
+                    }
+                    (f0, t0)
+                });
+                Case { from, to, rng_seed, draws, earlier }
             })
             .boxed()
     }
@@ -109,7 +123,15 @@ impl Property for C18 {
                 nontrivial = true;
             }
         }
-        let cons = Constraints::new(c.from, c.to, 0.0);
+        let cons = match &c.earlier {
+            None => Constraints::new(c.from, c.to, 0.0),
+            Some((f0, t0)) => {
+                let mut x = Constraints::new(*f0, *t0, 0.0);
+                x.update_range(c.from, c.to);
+                ctx.class("constraints reached through update_range");
+                x
+            }
+        };
         rs_opw_kinematics::verif_hooks::seed_rng(c.rng_seed);
         let mut result = Ok(());
         for d in 0..c.draws {
